@@ -336,7 +336,7 @@ def run(ck):
             unary_cases(mk(s1, f1))
             membership1(mk(s1, f1))
     # 3. seeded random pairs of a wider space
-    for _ in range(12000 if thorough else 300):
+    for _ in range(6000 if thorough else 300):
         A, B = rand_fmt(), rand_fmt()
         binary_cases(A, B, 'random')
         unary_cases(A)
